@@ -1,5 +1,20 @@
 from pyvc.runner import register_modules
 
-register_modules("C19", "bounded.C19_api")
-LEVEL = "exploration"
-ASSUMPTIONS = ["reference reading spec/sfdl_ref.py written from docs/firststeps/sfdl.md", "bounded scope as stated in evidence.bounded"]
+register_modules("C19", "contracts.C19_sfdl", "bounded.C19_api")
+LEVEL = "other"
+EXPLANATION = ("(VC, z3) the validator SFDLTokenizer._process_tokens / _process_list_item_token (opening, item, data-item and closing "
+               "steps inlined, mutual recursion through the two contracts) for EVERY element sequence (elements = heap region of symbolic "
+               "size with symbolic texts): terminates (loop variant = elements left); a call that returns has consumed one segment '<' ... '>' "
+               "that is bracket-balanced, produced one token per element with as many OPEN/CLOSE tokens as brackets and accepted no unknown "
+               "data item name; otherwise SFDLParseError and no other exception - so a definition with a missing closing bracket or an "
+               "unknown data item name is never silently accepted.  (FD) the assumed ghost view of the element list, the 134 catalogue "
+               "definitions against the reference reader.  (BND) the character-level splitting (comments, whitespace) and the shape "
+               "of the structure built from the tokens (records, open arrays, key names) on generated definitions.")
+ASSUMPTIONS = [
+    "the character loop parse_all (text -> elements; comments, whitespace) and the structure builder (tokens -> records / arrays / key names) are not under contract: bounded and FD passes only",
+    "the element list is seen through a ghost cursor: available / pop / peek are assumed at call sites and checked natively for all short lists (FD element-list-methods)",
+    "getattr(data_items, <name>, None) for a symbolic name is the uninterpreted predicate has_attr_text(name); used fact: attribute names of the module are identifiers",
+    "exception objects are built without running SFDLParseError.__init__ (message text / source line lookup are not part of the contract)",
+    "the top-level call with tokens=None differs from the verified call only by creating the list (FD top-level-call-creates-the-token-list)",
+    "reference reading spec/sfdl_ref.py written from docs/firststeps/sfdl.md", "bounded scope as stated in evidence.bounded",
+]
